@@ -7,3 +7,11 @@ import J5V.Props.C02
 #print axioms J5V.Props.C02.C02_nested_naming
 #print axioms J5V.Props.C02.C02_path_param
 #print axioms J5V.Props.C02.C02_path_rewrite
+#print axioms J5V.Props.C02.C02_service_shape
+#print axioms J5V.Props.C02.C02_service_messages
+#print axioms J5V.Props.C02.C02_subpackage_file
+#print axioms J5V.Props.C02.C02_topic_shape
+#print axioms J5V.Props.C02.C02_topic_roles
+#print axioms J5V.Props.C02.C02_src_import_consts
+#print axioms J5V.Props.C02.C02_src_implicit_imports
+#print axioms J5V.Props.C02.C02_src_suffixes
